@@ -251,20 +251,22 @@ def run(E: Engine, rep: Report, tier: str) -> dict:
             rep.error(f"T_timing derivation lost '{must}' (visited {len(visited)} functions): the derivation is broken")
 
     # the EOM checks cover every channel that was *ever* put in EOM mode (from the call log), not only those still in it
-    aec = None
-    for n in ast.walk(sw.node):
-        if isinstance(n, ast.Assign) and isinstance(n.targets[0], ast.Name) and n.targets[0].id == "active_eom_channels":
-            aec = n
-    if aec is None:
-        raise AnalysisError("anchor: active_eom_channels not found in switch_device")
-    from ..absval import abstractor as _abs
+    from .. import sym as _symE
+    from .symutil import S as _SE, is_ as _isE, sh as _shE, unobj as _unE
 
-    va = _abs(E.flow(sw)).av(aec.value)
-    from .common import strip_prefixes as _sp
-
-    roots = _sp(va.roots)
-    ok = any(r.startswith("seq._calls") for r in roots) and any(r.startswith("seq._to_build_calls") for r in roots) and "enable_eom_mode" in norm(aec.value)
-    rep.check(ok, "TABLE", "switch_device|eom-channels-from-call-log", "EOM channels = channels of every recorded enable_eom_mode call (regular and to-build)", f"the list of EOM channels no longer derives from all recorded enable_eom_mode calls ({va.show()[:160]}): a channel whose EOM block is already closed would escape the EOM configuration and sample comparison", E.where(sw, aec))
+    Ssw = _SE(E, sw)
+    comps = set()
+    pool = [v for v in (Ssw.env or {}).values() if isinstance(v, tuple)] + [t for l in Ssw.log for t in (l.value, l.target) if t is not None]
+    for top in pool:
+        for t in _symE.subterms(top):
+            if t[0] == "comp" and len(t[3]) == 1:
+                it_, filt = t[3][0]
+                for x in _symE.conj_of(filt):
+                    m_ = _isE(x, "Q_c.name == 'enable_eom_mode'")
+                    if m_ is not None and m_["Q_c"] == ("elem", it_, 0):
+                        comps.add(it_)
+    ok = bool(comps) and all(_symE.contains(it_, _symE.Pattern("seq._calls").term) and _symE.contains(it_, _symE.Pattern("seq._to_build_calls").term) for it_ in comps)
+    rep.check(ok, "TABLE", "switch_device|eom-channels-from-call-log", "EOM channels = channels of every recorded enable_eom_mode call (regular and to-build)", f"the list of EOM channels no longer derives from all recorded enable_eom_mode calls ({('iterates ' + str([_shE(i_, 80) for i_ in comps])) if comps else 'no selection of the calls named enable_eom_mode from the call log is left'}): a channel whose EOM block is already closed, or one enabled in a parametrized sequence, would escape the EOM configuration and sample comparison", E.where(sw))
     # --------------------------------------------------------------- OWN
     E.prepare_summaries()
     for f, label in ((sw, "switch_device"), (E.method(SEQ, "switch_register"), "Sequence.switch_register")):
